@@ -1,6 +1,7 @@
-(* C20 / integrate_absolute_polynomial  (/repo/include/smooth/polynomial/basis.hpp:418-452).
+(* C20 / integrate_absolute_polynomial  (/repo/include/smooth/polynomial/basis.hpp:427-452).
    Theorems about the real-number model  SV.Model.C20_AbsPoly.iapR  and the bridge to the
-   executable model iapQ_thr. *)
+   executable model iapQ_thr.  The model is the code after /repo commit b9fcddd (second test
+   abs(A) >= 1e-9): the quadratic regime is  thr <= |A|  and includes |A| = thr. *)
 From Coq Require Import Reals QArith Qabs Qreals Lra Psatz Bool.
 From Coquelicot Require Import Coquelicot.
 From SV Require Import Model.C20_AbsPoly.
@@ -16,6 +17,18 @@ Proof. intros x y Hxy. unfold Rltb. destruct (Rlt_dec x y) as [Hlt | Hnlt]; [ref
 
 Lemma Rltb_false : forall x y, ~ x < y -> Rltb x y = false.
 Proof. intros x y Hxy. unfold Rltb. destruct (Rlt_dec x y) as [Hlt | Hnlt]; [contradiction | reflexivity]. Qed.
+
+Lemma Rgeb_true : forall x y, y <= x -> Rgeb x y = true.
+Proof.
+  intros x y Hxy. unfold Rgeb. destruct (Rge_dec x y) as [Hge | Hnge]; [reflexivity | ].
+  exfalso. apply Hnge. apply Rle_ge. exact Hxy.
+Qed.
+
+Lemma Rgeb_false : forall x y, x < y -> Rgeb x y = false.
+Proof.
+  intros x y Hxy. unfold Rgeb. destruct (Rge_dec x y) as [Hge | Hnge]; [ | reflexivity].
+  exfalso. apply Rge_le in Hge. lra.
+Qed.
 
 Lemma abs_sign : forall s x, s = 1 \/ s = -1 -> 0 <= s * x -> Rabs x = s * x.
 Proof.
@@ -162,7 +175,8 @@ Theorem iapR_exact_constant : forall thr t0 t1 A B C,
 Proof.
   intros thr t0 t1 A B C Hthr H01 HA HB. subst A B.
   unfold iapR, midsR. rewrite Rabs_R0.
-  rewrite (Rltb_false thr 0) by lra. rewrite andb_false_r. cbv iota zeta beta. unfold clampoR.
+  rewrite (Rltb_false thr 0) by lra. rewrite andb_false_r. rewrite (Rgeb_false 0 thr) by lra.
+  cbv iota zeta beta. unfold clampoR.
   destruct (Rle_dec 0 C) as [HC | HC].
   - apply (one_piece 0 0 C t0 t1 1); [left; reflexivity | exact H01 | ].
     intros t Ht. unfold P. lra.
@@ -229,36 +243,19 @@ Proof.
   apply iapR_exact_linear; try lra; try reflexivity. rewrite Rabs_R1. lra.
 Qed.
 
-(* the statement with 0 <= thr is false at thr = 0 *)
-Theorem iapR_linear_thr0_refuted : exists t0 t1 A B C I,
-  t0 <= t1 /\ A = 0 /\ 0 < Rabs B /\ is_RInt (absP A B C) t0 t1 I /\ iapR 0 t0 t1 A B C <> I.
-Proof.
-  exists (-1), 1, 0, 1, 0.
-  exists (Rabs (integR 0 1 0 1 - integR 0 1 0 (-1) + 2 * integR 0 1 0 (-1) - 2 * integR 0 1 0 0)).
-  split; [lra | ]. split; [reflexivity | ]. split; [rewrite Rabs_R1; lra | ].
-  split; [apply three_piece_inst | ].
-  unfold iapR, midsR. rewrite Rabs_R0. rewrite (Rltb_false 0 0) by lra.
-  cbv iota zeta beta. simpl andb. cbv iota. unfold clampoR, integR.
-  replace (0 * 1 * 1 * 1 / 3 + 1 * 1 * 1 / 2 + 0 * 1 -
-      (0 * -1 * -1 * -1 / 3 + 1 * -1 * -1 / 2 + 0 * -1) +
-      2 * (0 * 1 * 1 * 1 / 3 + 1 * 1 * 1 / 2 + 0 * 1) -
-      2 * (0 * 1 * 1 * 1 / 3 + 1 * 1 * 1 / 2 + 0 * 1)) with 0 by field.
-  replace (0 * 1 * 1 * 1 / 3 + 1 * 1 * 1 / 2 + 0 * 1 -
-     (0 * -1 * -1 * -1 / 3 + 1 * -1 * -1 / 2 + 0 * -1) +
-     2 * (0 * -1 * -1 * -1 / 3 + 1 * -1 * -1 / 2 + 0 * -1) -
-     2 * (0 * 0 * 0 * 0 / 3 + 1 * 0 * 0 / 2 + 0 * 0)) with 1 by field.
-  rewrite Rabs_R0, Rabs_R1. lra.
-Qed.
+(* With thr = 0 and A = 0 the test |A| < thr fails and |A| >= thr holds: the code divides by A = 0
+   (NaN in binary64; the real-number model has no meaning there).  No statement is made for thr = 0
+   in the linear regime; the code's threshold is positive (iap_thrR_pos). *)
 
 (* ------------------------------------------------------------------ 1. quadratic *)
-Theorem iapR_exact_quadratic : forall thr t0 t1 A B C,
-  0 <= thr -> t0 <= t1 -> thr < Rabs A ->
+(* general form: the quadratic branch (:437-444) is exact whenever it is taken with A <> 0 *)
+Theorem iapR_exact_quadratic_gen : forall thr t0 t1 A B C,
+  t0 <= t1 -> A <> 0 -> thr <= Rabs A ->
   is_RInt (absP A B C) t0 t1 (iapR thr t0 t1 A B C).
 Proof.
-  intros thr t0 t1 A B C Hthr H01 HA.
-  assert (HA0 : A <> 0) by (intros HA0; subst A; rewrite Rabs_R0 in HA; lra).
+  intros thr t0 t1 A B C H01 HA0 HA.
   unfold iapR, midsR.
-  rewrite (Rltb_false (Rabs A) thr) by lra. rewrite (Rltb_true thr (Rabs A)) by lra.
+  rewrite (Rltb_false (Rabs A) thr) by lra. rewrite (Rgeb_true (Rabs A) thr) by lra.
   simpl andb. cbv iota zeta beta.
   set (res := B * B / (4 * A * A) - C / A).
   destruct (sign_of A HA0) as [s [Hs HsA]].
@@ -301,11 +298,21 @@ Proof.
     pose proof (Rle_0_sqr (t + B / (2 * A))) as Hsqr. unfold Rsqr in Hsqr. lra.
 Qed.
 
+(* the regime of the code:  thr <= |A|  for a positive threshold (|A| = thr included) *)
+Theorem iapR_exact_quadratic : forall thr t0 t1 A B C,
+  0 < thr -> t0 <= t1 -> thr <= Rabs A ->
+  is_RInt (absP A B C) t0 t1 (iapR thr t0 t1 A B C).
+Proof.
+  intros thr t0 t1 A B C Hthr H01 HA.
+  apply iapR_exact_quadratic_gen; [exact H01 | | exact HA].
+  intros HA0; subst A; rewrite Rabs_R0 in HA; lra.
+Qed.
+
 Example iapR_exact_quadratic_inst : is_RInt (absP 1 0 (-1)) (-2) 2 (iapR iap_thrR (-2) 2 1 0 (-1)).
 Proof.
   apply iapR_exact_quadratic; try lra.
-  - unfold iap_thrR. apply Rlt_le, Rdiv_lt_0_compat; [apply IZR_lt; reflexivity | apply pow_lt; lra].
-  - rewrite Rabs_R1. unfold iap_thrR. apply Rlt_div_l; [apply pow_lt; lra | ]. lra.
+  - unfold iap_thrR. apply Rdiv_lt_0_compat; [apply IZR_lt; reflexivity | apply pow_lt; lra].
+  - rewrite Rabs_R1. unfold iap_thrR. apply Rlt_le, Rlt_div_l; [apply pow_lt; lra | ]. lra.
 Qed.
 
 (* ------------------------------------------------------------------ the threshold *)
@@ -318,36 +325,36 @@ Lemma integR_sym_diff : forall A B C a b,
   = integR A B C b - integR A B C a.
 Proof. intros. ring. Qed.
 
-(* ------------------------------------------------------------------ 4. gap |A| = thr *)
-Theorem iapR_gap_refuted : exists t0 t1 A B C I,
-  t0 <= t1 /\ is_RInt (absP A B C) t0 t1 I /\ Rabs (iapR iap_thrR t0 t1 A B C - I) > 1 / 2.
+(* ------------------------------------------------------------------ 4. |A| = thr (the former gap) *)
+Lemma iap_thrR_pos : 0 < iap_thrR.
+Proof. pose proof iap_thrR_bounds as [Hlo Hhi]. lra. Qed.
+
+(* with the threshold of the code, |A| >= 1e-9 *)
+Corollary iapR_exact_quadratic_code : forall t0 t1 A B C,
+  t0 <= t1 -> iap_thrR <= Rabs A ->
+  is_RInt (absP A B C) t0 t1 (iapR iap_thrR t0 t1 A B C).
+Proof. intros t0 t1 A B C H01 HA. apply iapR_exact_quadratic; [apply iap_thrR_pos | exact H01 | exact HA]. Qed.
+
+(* |A| equal to the threshold, either sign: the value is the integral.  (Before /repo commit b9fcddd the
+   second test was strict, this input fell through both tests and the result was off by more than 1/2 for
+   A = thr, B = 1, C = 0 on [-1,1].) *)
+Theorem iapR_exact_at_threshold : forall t0 t1 A B C,
+  t0 <= t1 -> Rabs A = iap_thrR ->
+  is_RInt (absP A B C) t0 t1 (iapR iap_thrR t0 t1 A B C).
+Proof. intros t0 t1 A B C H01 HA. apply iapR_exact_quadratic_code; [exact H01 | lra]. Qed.
+
+Example iapR_exact_at_threshold_inst :
+  is_RInt (absP iap_thrR 1 0) (-1) 1 (iapR iap_thrR (-1) 1 iap_thrR 1 0).
 Proof.
-  pose proof iap_thrR_bounds as [Hlo Hhi].
-  set (a := iap_thrR) in *.
-  assert (Ha1 : a < 1 / 10 ^ 8) by lra.
-  assert (Ha0 : 0 < a) by lra.
-  exists (-1), 1, a, 1, 0.
-  exists (Rabs (integR a 1 0 1 - integR a 1 0 (-1) + 2 * integR a 1 0 (-1) - 2 * integR a 1 0 0)).
-  split; [lra | ]. split.
-  - apply (three_piece a 1 0 (-1) 1 (-1) 0 1); [left; reflexivity | lra | lra | lra | | | ];
-      intros t Ht; unfold P.
-    + lra.
-    + replace (- (1) * (a * t * t + 1 * t + 0)) with ((- t) * (a * t + 1)) by ring.
-      apply Rmult_le_pos; nra.
-    + replace (1 * (a * t * t + 1 * t + 0)) with (t * (a * t + 1)) by ring.
-      apply Rmult_le_pos; nra.
-  - unfold iapR, midsR.
-    rewrite (Rabs_pos_eq a) by lra.
-    rewrite (Rltb_false a a) by lra. simpl andb. cbv iota zeta beta. unfold clampoR.
-    rewrite integR_sym_diff. unfold integR.
-    replace (a * 1 * 1 * 1 / 3 + 1 * 1 * 1 / 2 + 0 * 1 -
-        (a * -1 * -1 * -1 / 3 + 1 * -1 * -1 / 2 + 0 * -1) +
-        2 * (a * -1 * -1 * -1 / 3 + 1 * -1 * -1 / 2 + 0 * -1) -
-        2 * (a * 0 * 0 * 0 / 3 + 1 * 0 * 0 / 2 + 0 * 0)) with 1 by field.
-    replace (a * 1 * 1 * 1 / 3 + 1 * 1 * 1 / 2 + 0 * 1 -
-       (a * -1 * -1 * -1 / 3 + 1 * -1 * -1 / 2 + 0 * -1)) with (2 * a / 3) by field.
-    rewrite (Rabs_pos_eq (2 * a / 3)) by lra. rewrite Rabs_R1.
-    rewrite Rabs_left1 by lra. lra.
+  apply iapR_exact_at_threshold; [lra | ]. apply Rabs_pos_eq. apply Rlt_le, iap_thrR_pos.
+Qed.
+
+(* the former witness, evaluated: the model now returns a value within 1e-8 of 1 *)
+Example iapR_former_gap_witness : forall I,
+  is_RInt (absP iap_thrR 1 0) (-1) 1 I -> iapR iap_thrR (-1) 1 iap_thrR 1 0 = I.
+Proof.
+  intros I HI. apply (is_RInt_unique (absP iap_thrR 1 0) (-1) 1) in HI.
+  pose proof (is_RInt_unique _ _ _ _ iapR_exact_at_threshold_inst) as HJ. congruence.
 Qed.
 
 (* ------------------------------------------------------------------ 5. |A| < thr, no real root *)
@@ -414,6 +421,23 @@ Proof.
   - symmetry. apply Rltb_false. apply Qgt_alt in Hcmp. apply Qlt_Rlt in Hcmp. lra.
 Qed.
 
+Lemma Qgeb_Rgeb : forall x y : Q, Qgeb x y = Rgeb (Q2R x) (Q2R y).
+Proof.
+  intros x y. unfold Qgeb.
+  destruct (x ?= y)%Q eqn:Hcmp.
+  - symmetry. apply Rgeb_true. apply Qeq_alt in Hcmp. apply Qeq_eqR in Hcmp. lra.
+  - symmetry. apply Rgeb_false. apply Qlt_alt in Hcmp. apply Qlt_Rlt. exact Hcmp.
+  - symmetry. apply Rgeb_true. apply Qgt_alt in Hcmp. apply Qlt_Rlt in Hcmp. lra.
+Qed.
+
+Lemma Rgeb_true_inv : forall x y, Rgeb x y = true -> y <= x.
+Proof.
+  intros x y Hb. unfold Rgeb in Hb. destruct (Rge_dec x y) as [Hge | Hnge]; [apply Rge_le; exact Hge | discriminate Hb].
+Qed.
+
+Example Rgeb_true_inv_inst : 1 <= 1.
+Proof. apply Rgeb_true_inv. apply Rgeb_true. lra. Qed.
+
 Lemma Q2R_clamp : forall v lo hi : Q,
   Q2R (clampQ v lo hi) = clampR (Q2R v) (Q2R lo) (Q2R hi).
 Proof.
@@ -459,38 +483,39 @@ Example Rltb_true_inv_inst : 0 < 1.
 Proof. apply Rltb_true_inv. apply Rltb_true. lra. Qed.
 
 (* The contract on sq is only required at the single argument the code passes to std::sqrt, and only
-   on the path where std::sqrt is called (basis.hpp:432-434).  This is the form that can actually be
-   discharged: a function Q -> Q cannot return sqrt x for every positive rational x. *)
+   on the path where std::sqrt is called (basis.hpp:441-443).  This is the form that can actually be
+   discharged: a function Q -> Q cannot return sqrt x for every positive rational x.
+   0 < thr: with thr = 0 and A = 0 the quadratic branch would divide by zero. *)
 Theorem iapQ_iapR : forall (sq : Q -> Q) (thr t0 t1 A B C : Q),
-  ((thr < Qabs A)%Q -> (0 < B * B / (4 * A * A) - C / A)%Q ->
+  ((thr <= Qabs A)%Q -> (0 < B * B / (4 * A * A) - C / A)%Q ->
      Q2R (sq (B * B / (4 * A * A) - C / A)%Q) = sqrt (Q2R (B * B / (4 * A * A) - C / A)%Q)) ->
-  (0 <= thr)%Q ->
+  (0 < thr)%Q ->
   Q2R (iapQ_thr sq thr t0 t1 A B C)
   = iapR (Q2R thr) (Q2R t0) (Q2R t1) (Q2R A) (Q2R B) (Q2R C).
 Proof.
   intros sq thr t0 t1 A B C Hsq Hthr.
-  apply Qle_Rle in Hthr. rewrite RMicromega.Q2R_0 in Hthr.
+  apply Qlt_Rlt in Hthr. rewrite RMicromega.Q2R_0 in Hthr.
   unfold iapQ_thr, iapR, midsQ, midsR.
-  rewrite !Qltb_Rltb, !Q2R_abs.
+  rewrite !Qltb_Rltb, Qgeb_Rgeb, !Q2R_abs.
   destruct (Rltb (Rabs (Q2R A)) (Q2R thr)) eqn:HcA.
-  - destruct (Rltb (Q2R thr) (Rabs (Q2R B))) eqn:HcB; simpl andb; cbv iota.
+  - assert (HcA' : Rgeb (Rabs (Q2R A)) (Q2R thr) = false).
+    { apply Rgeb_false. apply Rltb_true_inv in HcA. exact HcA. }
+    destruct (Rltb (Q2R thr) (Rabs (Q2R B))) eqn:HcB; simpl andb; cbv iota.
     + (* linear regime *)
       assert (HB0 : Q2R B <> 0).
       { intros HB0. rewrite HB0, Rabs_R0 in HcB. rewrite Rltb_false in HcB by lra. discriminate HcB. }
       unfold clampoQ, clampoR.
       rewrite Q2R_final, !Q2R_clamp.
       rewrite Q2R_div by (apply Q2R_neq0; exact HB0). rewrite Q2R_opp. reflexivity.
-    + assert (HcA' : Rltb (Q2R thr) (Rabs (Q2R A)) = false).
-      { apply Rltb_false. intros Hlt. apply Rltb_true_inv in HcA. lra. }
-      rewrite HcA'. unfold clampoQ, clampoR.
+    + rewrite HcA'. unfold clampoQ, clampoR.
       rewrite Q2R_final. reflexivity.
   - simpl andb. cbv iota.
-    destruct (Rltb (Q2R thr) (Rabs (Q2R A))) eqn:HcA'.
+    destruct (Rgeb (Rabs (Q2R A)) (Q2R thr)) eqn:HcA'.
     + (* quadratic regime *)
-      apply Rltb_true_inv in HcA'.
+      apply Rgeb_true_inv in HcA'.
       assert (HA0 : Q2R A <> 0).
       { intros HA0. rewrite HA0, Rabs_R0 in HcA'. lra. }
-      assert (HthrA : (thr < Qabs A)%Q) by (apply Rlt_Qlt; rewrite Q2R_abs; exact HcA').
+      assert (HthrA : (thr <= Qabs A)%Q) by (apply Rle_Qle; rewrite Q2R_abs; exact HcA').
       assert (HA0q : ~ (A == 0)%Q) by (apply Q2R_neq0; exact HA0).
       assert (H2A : ~ (2 * A == 0)%Q).
       { apply Q2R_neq0. rewrite Q2R_mult, Q2R_2. lra. }
@@ -519,7 +544,7 @@ Example iapQ_iapR_inst :
   Q2R (iapQ_thr (fun _ => 1%Q) iap_thr (-2) 2 1 0 (-1))
   = iapR (Q2R iap_thr) (Q2R (-2)) (Q2R 2) (Q2R 1) (Q2R 0) (Q2R (-1)).
 Proof.
-  apply iapQ_iapR; [ | discriminate].
+  apply iapQ_iapR; [ | reflexivity].
   intros HthrA Hpos.
   assert (Hone : Q2R 1 = 1) by (unfold Q2R; simpl; field).
   rewrite (Qeq_eqR (0 * 0 / (4 * 1 * 1) - -1 / 1) 1) by reflexivity.
@@ -530,7 +555,7 @@ Qed.
    met by any sq : Q -> Q, e.g. at x = 2; it is kept only because other files may name it) *)
 Corollary iapQ_iapR_forall : forall (sq : Q -> Q) (thr t0 t1 A B C : Q),
   (forall x : Q, (0 < x)%Q -> Q2R (sq x) = sqrt (Q2R x)) ->
-  (0 <= thr)%Q ->
+  (0 < thr)%Q ->
   Q2R (iapQ_thr sq thr t0 t1 A B C)
   = iapR (Q2R thr) (Q2R t0) (Q2R t1) (Q2R A) (Q2R B) (Q2R C).
 Proof.
@@ -540,7 +565,7 @@ Qed.
 
 (* with the threshold of the code *)
 Corollary iapQ_iapR_code : forall (sq : Q -> Q) (t0 t1 A B C : Q),
-  ((iap_thr < Qabs A)%Q -> (0 < B * B / (4 * A * A) - C / A)%Q ->
+  ((iap_thr <= Qabs A)%Q -> (0 < B * B / (4 * A * A) - C / A)%Q ->
      Q2R (sq (B * B / (4 * A * A) - C / A)%Q) = sqrt (Q2R (B * B / (4 * A * A) - C / A)%Q)) ->
   Q2R (iapQ sq t0 t1 A B C) = iapR iap_thrR (Q2R t0) (Q2R t1) (Q2R A) (Q2R B) (Q2R C).
 Proof.
@@ -548,7 +573,7 @@ Proof.
   assert (Hthr : Q2R iap_thr = iap_thrR).
   { unfold iap_thr, iap_thrR, Q2R, Rdiv. cbn [Qnum Qden]. f_equal. f_equal.
     rewrite (pow_IZR 2 82). f_equal. }
-  unfold iapQ. rewrite <- Hthr. apply iapQ_iapR; [exact Hsq | discriminate].
+  unfold iapQ. rewrite <- Hthr. apply iapQ_iapR; [exact Hsq | reflexivity].
 Qed.
 
 Example iapQ_iapR_code_inst :
